@@ -151,7 +151,7 @@ func (c *Check) tlvLoopRules(rule, fnName string, bParam int) {
 func checkC02Decode(c *Check) {
 	p := c.P
 	dec := p.Fn("openMessage.decode")
-	if dec != nil && len(dec.Params) == 2 {
+	if dec != nil && c.sig("C02.3 open-body-structure", dec, 2) {
 		b := paramExpr(dec, 1)
 		lenB := mkLen(b)
 		b9 := byteLoad(b, 9)
